@@ -115,6 +115,7 @@ fn gaussian2d<T: ndarray::NdFloat>(ctx: &Ctx, ty: &str, g: &G2, tol_rel: f64) {
         ctx.sample_tagged("Gaussian2D point", || json!({"input": case.clone(), "unnorm_logp": un, "logp": no, "closed_form_unnorm": -0.5 * q, "tolerance": tol}));
         diffs.push(no - un);
         ctx.distinct(hash_f64s(ty, &[xr[0], xr[1], g.cov[0][0], g.cov[0][1], g.cov[1][1], g.mean[0], g.mean[1]]));
+        ctx.state(hash_f64s(ty, &[xr[0], xr[1], g.cov[0][0], g.cov[0][1], g.cov[1][1], g.mean[0], g.mean[1]]));
     }
     // normalised - unnormalised is one constant over the lattice
     let c0 = gr.norm_const();
@@ -174,6 +175,7 @@ where
                 }
             }
             ctx.distinct(hash_str(&case.to_string()));
+            ctx.state(hash_str(&case.to_string()));
         }
     }
 }
@@ -222,6 +224,7 @@ where
                 }
             }
             ctx.distinct(hash_str(&case.to_string()));
+            ctx.state(hash_str(&case.to_string()));
         }
     }
     // RosenbrockND, D = 2..5
@@ -282,6 +285,7 @@ where
                 let back = prop.logp(&tt, &ft).to_f64().unwrap();
                 close(ctx, "C15:isotropic-symmetry", "IsotropicGaussian::logp symmetric in its arguments", back, got, tol_rel * scale, &case);
                 ctx.distinct(hash_str(&case.to_string()));
+                ctx.state(hash_str(&case.to_string()));
             }
         }
         // integral of exp(logp) over a trapezoid lattice ~ 1 for d = 1, 2 (wide tolerance; catches a wrong normalising constant)
@@ -388,6 +392,61 @@ where
             }
         }
     }
+    // E3 histories over {sample a 1/3/70-dimensional candidate, set_seed(1), set_seed(2), clone-and-continue-with-the-clone}:
+    // whatever happened before, the draws after the LAST set_seed(s) equal those of a fresh proposal seeded with s that
+    // performs the same later operations ("set_seed makes its draws reproducible")
+    {
+        #[derive(Clone, Copy, Debug, PartialEq)]
+        enum Op {
+            Sample(usize),
+            Seed(u64),
+            CloneSwap,
+        }
+        let alphabet = [Op::Sample(1), Op::Sample(3), Op::Sample(70), Op::Seed(1), Op::Seed(2), Op::CloneSwap];
+        let depth = 4usize;
+        let total = alphabet.len().pow(depth as u32);
+        let apply = |p: &mut IsotropicGaussian<T>, ops: &[Op]| -> Vec<Vec<u64>> {
+            let mut out = vec![];
+            for op in ops {
+                match *op {
+                    Op::Sample(d) => {
+                        let cur: Vec<T> = (0..d).map(|k| f(0.25 * k as f64)).collect();
+                        out.push(p.sample(&cur).iter().map(|x| x.to_f64().unwrap().to_bits()).collect());
+                    }
+                    Op::Seed(sd) => *p = p.clone().set_seed(sd),
+                    Op::CloneSwap => *p = p.clone(),
+                }
+            }
+            out
+        };
+        let mut checked = 0u64;
+        for idx in 0..total {
+            let mut i = idx;
+            let ops: Vec<Op> = (0..depth).map(|_| { let o = alphabet[i % alphabet.len()]; i /= alphabet.len(); o }).collect();
+            let Some(last_seed) = ops.iter().rposition(|o| matches!(o, Op::Seed(_))) else { continue };
+            if !ops[last_seed + 1..].iter().any(|o| matches!(o, Op::Sample(_))) || !ops[..last_seed].iter().any(|o| matches!(o, Op::Sample(_))) {
+                continue; // nothing drawn after the seed, or nothing drawn before it (covered above)
+            }
+            let Op::Seed(sd) = ops[last_seed] else { continue };
+            ctx.evals(1);
+            ctx.transitions(depth as u64);
+            let mut p = IsotropicGaussian::<T>::new(f(1.5)).set_seed(99);
+            let all = apply(&mut p, &ops);
+            let n_after = ops[last_seed + 1..].iter().filter(|o| matches!(o, Op::Sample(_))).count();
+            let got = &all[all.len() - n_after..];
+            let mut fresh = IsotropicGaussian::<T>::new(f(1.5)).set_seed(sd);
+            let want = apply(&mut fresh, &ops[last_seed + 1..]);
+            if got != &want[..] {
+                ctx.violation(Violation::new(
+                    "C15:isotropic-seed(history)",
+                    format!("history {ops:?}: the draws after the last set_seed({sd}) differ from those of a fresh proposal seeded with {sd}"),
+                    json!({"proposal": "IsotropicGaussian", "ty": ty, "history": format!("{ops:?}")}),
+                ));
+            }
+            checked += 1;
+        }
+        ctx.outcome("isotropic seed histories checked", checked);
+    }
     // Target impl: unnormalised isotropic log-density
     for std in [0.5, 2.0] {
         let p = IsotropicGaussian::<T>::new(f(std));
@@ -400,7 +459,7 @@ where
 }
 
 pub fn run(ctx: &Ctx) {
-    ctx.rule("finite lattice: means {-2,0,1.5}^2-subset x 5 SPD covariances (cond up to 1e4) x 7x7 points x batch sizes {1,2,3,64} x {f32,f64} scalars x {NdArray<f32>,NdArray<f64>} backends; Rosenbrock (3 parameter pairs, 7x7 lattice, ND for D=2..5); IsotropicGaussian std in {1e-3,0.5,1,2,1e3}, d in {1,2,3,32}; closed-form f64 oracles; a case is distinct by its (target, parameters, point/batch) hash");
+    ctx.rule("finite lattice: means {-2,0,1.5}^2-subset x 5 SPD covariances (cond up to 1e4) x 7x7 points x batch sizes {1,2,3,64} x {f32,f64} scalars x {NdArray<f32>,NdArray<f64>} backends; Rosenbrock (3 parameter pairs, 7x7 lattice, ND for D=2..5); IsotropicGaussian: all 4-operation histories over {sample d=1/3/70, set_seed(1), set_seed(2), clone} (draws after the last set_seed equal a fresh seeded proposal's); std in {1e-3,0.5,1,2,1e3}, d in {1,2,3,32}; closed-form f64 oracles; a case is distinct by its (target, parameters, point/batch) hash");
     let means = if ctx.tier.thorough() { vec![[0.0, 0.0], [-2.0, 1.5], [1.5, -2.0], [0.0, 1.0]] } else { vec![[0.0, 0.0], [-2.0, 1.5]] };
     // every covariance also at tiny and large overall scale (standard deviations 1e-2 / 1e2; f64 additionally 1e-5)
     let mut cov_list: Vec<([[f64; 2]; 2], bool)> = vec![];
